@@ -330,6 +330,24 @@ func c19Run(c *core.Ctx, idx int) {
 			}
 		}
 		lim := c19Limits[r.Intn(3)]
+		if r.Chance(1, 4) {
+			// one long nil run just below an explicit limit above the default of 50
+			lim = []int{51, 60, 64, 100, 200}[r.Intn(5)]
+			run := r.Range(45, lim-1)
+			pre, post := r.Range(1, 4), r.Range(1, 6)
+			b = b[:0]
+			for i := 0; i < pre; i++ {
+				b = append(b, 'x')
+			}
+			for i := 0; i < run; i++ {
+				b = append(b, '.')
+			}
+			for i := 0; i < post; i++ {
+				b = append(b, "x.x"[r.Intn(3)])
+			}
+			b = append(b, 'x')
+			c.Count("patterns.long-run-below-large-limit")
+		}
 		c19Flat(c, string(b), lim, r.Bool(), r.Bool(), Kinds[r.Intn(5)], false)
 		c.Count("patterns.random-long")
 		c.NontrivialStr(fmt.Sprintf("%s|%d", b, lim))
@@ -384,13 +402,13 @@ func init() {
 		},
 		Run: c19Run,
 		Rule: "all nil/non-nil patterns of length 0..10 (quick) / 0..12 (thorough) x scan limit {default 50, 3, 60} x 4 negative/forward index option combinations; " +
-			"random patterns of length 13..80; random trees (depth <= 3) of pattern stacks nested as Stack elements, Stack aliases and Condition expressions. " +
+			"random patterns of length 13..80 and patterns with one nil run of 45..limit-1 under explicit limits {51,60,64,100,200}; random trees (depth <= 3) of pattern stacks nested as Stack elements, Stack aliases and Condition expressions. " +
 			"Oracle: content == former non-nil elements in order, Len == their count, Err()==nil, configuration unchanged, gap-free stacks untouched (recursive VerifDump diff); only patterns whose nil runs are shorter than the limit are judged. " +
 			"Every wrong result is classified by shape (truncation = expected[:m]++nil*, untouched, corrupt, spurious-err); for patterns of length <= 10 under default options the known wrong outcome is pinned per pattern in C19_pinned.txt. " +
 			"non-trivial = pattern with at least one nil and one element (flat) / tree with at least one nested container; distinct = (pattern, limit, options) or tree description.",
 		Assumptions: []string{"element values are unique, so every surviving element identifies its origin"},
 		Floors: func(string) map[string]int64 {
-			return map[string]int64{"judged": 10000, "trees.nested.with-containers": 500, "patterns.random-long": 1000}
+			return map[string]int64{"judged": 10000, "trees.nested.with-containers": 500, "patterns.random-long": 1000, "patterns.long-run-below-large-limit": 200}
 		},
 	})
 	RegisterAux("c19table", C19Table)
